@@ -153,6 +153,10 @@ def gen_case(rng):
             'tiebreak': core.gen_tiebreak(rng), 'id_offset': rng.choice((0, 0, 5, 1000))}
     if case['source']['ct'] == 0 and case['source']['parts'] is None and not _wellposed_zero_source(case):
         case['source']['parts'] = rng.choice((3, 12, 25))
+    if rng.random() < 0.06:
+        # a much finer (still exactly representable) grid for the source: arrivals 2**-30 apart meet delays of 1/4 .. 2
+        case['source']['ct'] = 2.0 ** -30
+        case['source']['parts'] = rng.choice((2, 4, 8))
     return case
 
 
